@@ -593,7 +593,7 @@ def main(tier):
     rt, drv = load_progs()
     rep = common.Reporter(PID)
     tmo = 900 if tier == "quick" else 2400
-    deadline = time.time() + (2400 if tier == "quick" else 5400)      # after the MIR dumps
+    deadline = 1800 if tier == "quick" else 3600      # seconds for the CFA construction of ONE configuration, counted from its start
     results = []
     cfgs = CONFIGS[tier]
     for r in common.fork_map(_cfg_worker, [(rt, drv, c, tmo, deadline) for c in cfgs], min(len(cfgs), 4)):
@@ -605,6 +605,7 @@ def main(tier):
 
 def _cfg_worker(a):
     rt, drv, (N, B_, I, K, variant), tmo, deadline = a
+    deadline = time.time() + deadline
     try:
         r = run_config(rt, drv, N, B_, I, K, tmo, deadline, qjobs=4, variant=variant)
         r["variant"] = variant
